@@ -249,6 +249,7 @@ func multiPolygonCentroidArea(mp orb.MultiPolygon) (orb.Point, float64) {
 func collectionCentroidArea(c orb.Collection) (orb.Point, float64) {
 	point := orb.Point{}
 	area := 0.0
+	weight := 0.0
 
 	max := maxDim(c)
 	for _, g := range c {
@@ -258,20 +259,48 @@ func collectionCentroidArea(c orb.Collection) (orb.Point, float64) {
 
 		c, a := CentroidArea(g)
 
-		point[0] += c[0] * a
-		point[1] += c[1] * a
+		// weighted by area, lines are weighted by length
+		// and points by their number.
+		w := a
+		if max == 1 {
+			w = Length(g)
+		} else if max == 0 {
+			w = float64(numPoints(g))
+		}
+
+		point[0] += c[0] * w
+		point[1] += c[1] * w
 
 		area += a
+		weight += w
 	}
 
-	if area == 0 {
+	if weight == 0 {
 		return orb.Point{}, 0
 	}
 
-	point[0] /= area
-	point[1] /= area
+	point[0] /= weight
+	point[1] /= weight
 
 	return point, area
+}
+
+// numPoints counts the points of a 0 dimensional geometry.
+func numPoints(g orb.Geometry) int {
+	switch g := g.(type) {
+	case orb.Point:
+		return 1
+	case orb.MultiPoint:
+		return len(g)
+	case orb.Collection:
+		sum := 0
+		for _, c := range g {
+			sum += numPoints(c)
+		}
+		return sum
+	}
+
+	return 0
 }
 
 func maxDim(c orb.Collection) int {
